@@ -451,7 +451,7 @@ def alpha_cases(tier):
     out = []
     for lab in ["dna", "rna", "protein", "protein_with_stop", "text", "bytes"]:
         out.append(dict(gen="alpha", p=dict(kind="old_moltype", label=lab), block="enum"))
-        for how in [None, "degen", "gapped", "degen_gapped", "with_gap"]:
+        for how in [None, "degen", "gapped", "degen_gapped", "with_gap"] if lab not in ("text", "bytes") else [None]:
             out.append(dict(gen="alpha", p=dict(kind="old_alpha", label=lab, how=how), block="enum"))
     for lab in ["dna", "rna", "protein"]:
         for k in (2, 3):
@@ -471,7 +471,7 @@ def alpha_cases(tier):
             out.append(dict(gen="alpha", p=dict(kind="new_alpha", label="dna", how="codon", gc=gc, include_gap=st), block="enum"))
     for lab in ["dna", "rna", "protein", "protein_with_stop", "text", "bytes"]:
         out.append(dict(gen="alpha", p=dict(kind="new_moltype", label=lab), block="enum"))
-        for how in [None, "degen", "gapped", "degen_gapped", "most_degen"]:
+        for how in [None, "degen", "gapped", "degen_gapped", "most_degen"] if lab not in ("text", "bytes") else [None, "most_degen"]:
             out.append(dict(gen="alpha", p=dict(kind="new_alpha", label=lab, how=how), block="enum"))
     for lab in ["dna", "rna", "protein"]:
         for k in (1, 2, 3):
@@ -555,7 +555,7 @@ def lf_cases(tier, rng):
         for m in ["K80", "JC69", "TN93", "ssGN", "GTR"]:
             add(model=m, tree=TREE4, aln=ALN4, ops=[["optimise", 12]])
         add(model="GNC", tree=TREE3, aln={k: v[:15] for k, v in ALN3.items()})
-        add(model="H04GK", tree=TREE3, aln={k: v[:15] for k, v in ALN3.items()})
+    add(model="H04GK", tree=TREE3, aln={k: v[:15] for k, v in ALN3.items()})
     return [c for c in out if c is not None]
 
 
@@ -580,7 +580,7 @@ def result_cases(tier):
     lf2 = dict(model="HKY85", tree=TREE3, aln=ALN3, ops=[["rule", dict(par_name="kappa", init=3.0)]])
     lf3 = dict(model="GTR", tree=TREE3, aln=ALN3)
     add(kind="model", source="z.fa", lf=lf2, name="m1")
-    add(kind="model", source="z.fa", lf=dict(lf2, name="named"), name="m2", elapsed=1.5, stat="min")
+    add(kind="model", source="z.fa", lf=dict(lf2, name="named"), name="m2", elapsed=1.5, stat="max")
     add(kind="model_split", source="z.fa", lfs=[lf1, lf2, lf3], name="split")
     add(kind="hypothesis", source="z.fa", null="HKY85", models=[["HKY85", lf1], ["GTR", lf3]])
     add(kind="model_collection", source="z.fa", models=[["HKY85", lf1], ["GTR", lf3]])
@@ -796,8 +796,10 @@ def compare_case(rep, c, r, stats):
             ro_n = dict(ro_n, cls=obs.get("cls"))   # a TreeNode reads back as a PhyloNode (a superset of its interface)
         d = same(obs, ro_n)
         if d:
-            if obs.get("kind") == "tree" and "null" in obs.get("edges", {}):
-                key = "tree:PhyloNode:json:unnamed-node" if family == "json" else f"tree:PhyloNode:{rc}:unnamed-node"
+            if obs.get("kind") == "tree" and obs.get("names_ok") is False:
+                # nodes created by operations (bifurcating, copy ...) are unnamed or get a name that is already taken;
+                # the rich dict keys edge attributes by node name
+                key = "tree:PhyloNode:json:node-names" if family == "json" else f"tree:PhyloNode:{rc}:node-names"
                 if key in reported:
                     continue
                 reported.add(key)
